@@ -301,6 +301,9 @@ class BaseInterpreter(Generic[TContext, TEvent]):
         # States whose tasks `_exit_states` cancelled during the transition
         # in flight; a rollback re-arms exactly these.
         self._exit_cancelled_states: List[StateNode] = []
+        # How many times each state's `after` timers have been armed; an
+        # `AfterEvent` carries the count it was armed under (see there).
+        self._timer_activation: Dict[str, int] = {}
         #: Remembered configurations for history pseudo-states, keyed by the
         #: *parent* state id. Recorded on exit, replayed when a transition
         #: targets a `type: "history"` child of that parent.
@@ -2620,7 +2623,18 @@ class BaseInterpreter(Generic[TContext, TEvent]):
                     eligible.append(current.on_done)
 
             # ⏰ `after` transitions for timed events.
-            if isinstance(event, AfterEvent):
+            #
+            # 🕰️ The expiry waits in the same FIFO queue as everything else:
+            #    queued behind a leave + re-enter of its state it used to be
+            #    matched by type alone and fired the NEW activation's delayed
+            #    transition 0 ms after entry. An expiry armed under an earlier
+            #    activation of this state is stale and selects nothing.
+            if isinstance(event, AfterEvent) and not (
+                event.activation is not None
+                and current.after
+                and event.activation
+                != self._timer_activation.get(current.id)
+            ):
                 for transitions in current.after.values():
                     for t in transitions:
                         if t.event == event.type and _passes(t):
@@ -2911,6 +2925,9 @@ class BaseInterpreter(Generic[TContext, TEvent]):
             state (StateNode): The state being entered.
         """
         # 🕒 Schedule `after` timers.
+        activation = self._timer_activation.get(state.id, 0) + 1
+        if state.after:
+            self._timer_activation[state.id] = activation
         for delay_ms, transitions in state.after.items():
             # 🏷️ Symbolic delays resolve through MachineLogic.delays.
             resolved_ms = self._resolve_delay(delay_ms, None)
@@ -2924,7 +2941,9 @@ class BaseInterpreter(Generic[TContext, TEvent]):
                 continue
             for t_def in transitions:
                 delay_sec = float(resolved_ms) / 1000.0
-                after_event = AfterEvent(type=t_def.event)
+                after_event = AfterEvent(
+                    type=t_def.event, activation=activation
+                )
                 self._after_timer(delay_sec, after_event, owner_id=state.id)
                 logger.debug(
                     "🕒 Scheduled 'after' event '%s' in %.2fs for state '%s'.",
